@@ -655,11 +655,38 @@ func ruleServerErrorsAnswered(w *World, r *Report, rule string) {
 				return false
 			}
 			ex := newExprCtx(w)
+			// the error's own status: the field statusCode, or — when fields were renamed and reordered — the only
+			// int field of the receiver
+			isStatus := func(v ssa.Value) bool {
+				if ex.expr(v) == "p0.statusCode" {
+					return true
+				}
+				u, ok := v.(*ssa.UnOp)
+				if !ok || u.Op != token.MUL {
+					return false
+				}
+				fa, ok := u.X.(*ssa.FieldAddr)
+				if !ok || fa.X != ssa.Value(wt.Params[0]) {
+					return false
+				}
+				st, ok := fa.X.Type().Underlying().(*types.Pointer).Elem().Underlying().(*types.Struct)
+				if !ok {
+					return false
+				}
+				ints := 0
+				for i := 0; i < st.NumFields(); i++ {
+					if bt, isB := st.Field(i).Type().Underlying().(*types.Basic); isB && bt.Kind() == types.Int {
+						ints++
+					}
+				}
+				bt, isB := st.Field(fa.Field).Type().Underlying().(*types.Basic)
+				return isB && bt.Kind() == types.Int && ints == 1
+			}
 			if isCallToPkgFunc(c, "net/http", "Error") && len(c.Common().Args) == 3 {
-				return ex.expr(c.Common().Args[2]) == "p0.statusCode"
+				return isStatus(c.Common().Args[2])
 			}
 			if c.Common().IsInvoke() && c.Common().Method.Name() == "WriteHeader" && len(c.Common().Args) == 1 {
-				return ex.expr(c.Common().Args[0]) == "p0.statusCode"
+				return isStatus(c.Common().Args[0])
 			}
 			return false
 		}); ret != nil {
